@@ -22,3 +22,7 @@ Lemma audit_entries_exist :
   forallb (fun p => existsb (fun o => String.eqb (fst p) (so_unit o) && String.eqb (snd p) (so_name o)) statics)
           audited = true.
 Proof. vm_compute. reflexivity. Qed.
+
+(* no reference to a libc function with process-wide hidden state (strtok, rand, localtime, setlocale, getenv, ...) *)
+Lemma no_unsafe_libc : unsafe_libc_refs = [].
+Proof. vm_compute. reflexivity. Qed.
